@@ -214,6 +214,7 @@ func checkC09(e *core.Env) {
 	})
 
 	// ---- server parse ----
+	badMD := false
 	serve := func(hv string, stream, slow bool) (p *deadlineProbe, tb time.Time, pan string, code int, sb *slowBody) {
 		p = &deadlineProbe{}
 		sc := &Script{Kind: Unary, UnaryReq: &tpb.Message{}, Resp: &tpb.Message{}}
@@ -222,12 +223,16 @@ func checkC09(e *core.Env) {
 		}
 		run := svc.NewRun(sc, "http-direct")
 		defer svc.Forget(run)
-		run.OnHandler = func(ctx context.Context, _ *Run, _ grpc.ServerStream) {
+		probe := func(ctx context.Context) {
 			p.entry = time.Now()
 			p.h, p.has = ctx.Deadline()
 			p.err = ctx.Err()
 			p.ran = true
 		}
+		run.OnHandler = func(ctx context.Context, _ *Run, _ grpc.ServerStream) { probe(ctx) }
+		// a handler that runs although its metadata (with the run id) got lost is probed all the same
+		svc.OnUnknown = probe
+		defer func() { svc.OnUnknown = nil }()
 		var req *http.Request
 		if !stream {
 			req = unaryHTTPRequest(context.Background(), "/", run, nil)
@@ -237,6 +242,12 @@ func checkC09(e *core.Env) {
 			req.Header.Set("X-Verif-Run", run.ID)
 		}
 		req.Header["Grpc-Timeout"] = []string{hv}
+		if badMD {
+			// metadata that cannot be decoded next to a valid timeout: the request may be refused, but a
+			// handler that does run has the deadline
+			req.Header["X-Blob-Bin"] = []string{"YQ", "!!not base64!!"}
+			e.Count("server_undecodable_metadata", 1)
+		}
 		if slow && !stream {
 			// the timeout is known once the headers are there: a body that trickles in afterwards
 			// must not postpone the deadline
@@ -258,6 +269,9 @@ func checkC09(e *core.Env) {
 		}
 		if !valid {
 			return // only "never crash" is required
+		}
+		if !p.ran && badMD {
+			return
 		}
 		if !p.ran {
 			e.Violate("server/valid-rejected", fmt.Sprintf("valid GRPC-Timeout %q: handler did not run (HTTP %d)", hv, code), hv)
@@ -327,7 +341,9 @@ func checkC09(e *core.Env) {
 				strings.Repeat("9", 400)+"H", strings.Repeat("S", 50), "\x00", "5\x00S", "9223372036854775807n", "-9223372036854775808n", "m", "n", "1H2M")
 		}
 		e.Note("%q", hv)
+		badMD = r.Intn(12) == 0
 		judge(hv, r.Intn(2) == 0, r.Intn(16) == 0)
+		badMD = false
 		cls := "malformed"
 		if _, ok := parseTimeoutExact(hv); ok {
 			cls = fmt.Sprintf("%c/%d", hv[len(hv)-1], len(hv))
